@@ -142,6 +142,17 @@ def OSys.init (rs : List (Temporality × Temporality)) (is : List OInst) : OSys 
           | .updown => .psum { monotonic := false }
           | .gauge => .plv {} } }
 
+/-- the same provider with readers that have NO aggregate function for any observable instrument: `off r` = reader `r`'s
+AggregationSelector answers an aggregation `isAggregatorCompatible` rejects for every observable kind (LastValue for the
+sum kinds, Sum for gauges) or `AggregationDrop`.  `meter.int64ObservableInstrument` / `float64ObservableInstrument`
+(meter.go:129-176) JOIN the error of such a pipeline and CONTINUE with the remaining readers (after the F48 fix: as
+`resolver.Aggregators` does for synchronous instruments): the pipeline gets no measure function and no instrument-level
+callback (`len(in) == 0`: `continue`), every other reader is served as usual.  A reader without aggregate functions is a
+reader with the empty aggregator list: its callbacks record nothing and its collections report nothing. -/
+def OSys.initR (rs : List (Temporality × Temporality × Bool)) (is : List OInst) : OSys :=
+  let s := OSys.init (rs.map fun r => (r.1, r.2.1)) is
+  { s with readers := (s.readers.zip rs).map fun p => if p.2.2.2 then { p.1 with aggs := [] } else p.1 }
+
 /-- the record a reader produced last -/
 def lastRec (rs : List OReader) (r : Nat) : List (Nat × Nat × List OStream) :=
   match rs[r]? with
@@ -175,6 +186,9 @@ def OSys.runFrom (s : OSys) (i : Nat) : List OOp → OSys
 
 def OSys.run (rs : List (Temporality × Temporality)) (is : List OInst) (ops : List OOp) : OSys :=
   (OSys.init rs is).runFrom 0 ops
+
+def OSys.runR (rs : List (Temporality × Temporality × Bool)) (is : List OInst) (ops : List OOp) : OSys :=
+  (OSys.initR rs is).runFrom 0 ops
 
 /-! ### specification (reference semantics from the history; independent of the aggregators) -/
 namespace Spec
